@@ -1,0 +1,26 @@
+/*
+ * SPDX-FileCopyrightText: © 2017-2025 Istari Digital, Inc.
+ * SPDX-License-Identifier: Apache-2.0
+ */
+
+package simd
+
+// Search finds the first idx for which xs[idx] >= k in xs. The keys are at the
+// even positions of xs. If there is no such key, len(xs)/2 is returned.
+func Search(xs []uint64, k uint64) int16 {
+	// The assembly kernel compares four keys (eight words) per iteration without
+	// checking the length, so only hand it whole blocks. Otherwise it would read
+	// beyond the slice and the result would depend on whatever follows it.
+	n := len(xs) &^ 7
+	if n > 0 {
+		if idx := search(xs[:n], k); int(idx) < n/2 {
+			return idx
+		}
+	}
+	for i := n; i < len(xs); i += 2 {
+		if xs[i] >= k {
+			return int16(i / 2)
+		}
+	}
+	return int16(len(xs) / 2)
+}
